@@ -172,6 +172,7 @@ func Main(t *testing.T) {
 	if mode == "" {
 		mode = prop.Modes()[0]
 	}
+	soloT = t
 	t0 := time.Now()
 	r := &runner{t: t, w: w, prop: prop, mode: mode, cov: &Coverage{}, known: map[string]bool{}}
 	r.res = &Result{World: worldName, Prop: propID, Mode: mode, KnownHits: map[string]int{}, KnownSamples: map[string]*FoundViolation{}}
